@@ -455,9 +455,8 @@ class Project(MessageHandler):
         # Start from root tasks (no parent)
         for task in self.tasks:
             if task.parent is None:
-                task_end = task.get("end", scIdx)
-                if task_end:
-                    propagate_end_to_children(task, task_end)
+                # An undated root can still enclose dated containers: descend in any case
+                propagate_end_to_children(task, task.get("end", scIdx))
 
     def finishScenario(self, scIdx: int) -> None:
         for task in self.tasks:
